@@ -1,8 +1,248 @@
-import Hidi
-namespace Hidi.Props.C13
-open Hidi
+/-
+  C13 — Panic silences the current channel and leaves the device consistent.
 
-/-- placeholder obligation replaced by the real theorems below as they are proved -/
-theorem init_not_dead (cfg : Config) : (Dev.init cfg).dead = false := rfl
+  * `C13_messages`    : an (unswallowed, unpaired) panic press emits exactly CC 123 value 0 followed by Note Off for
+                        the notes 0..127, all on the current channel — `panicMsgs d.channel`;
+  * `C13_quiet`       : none of these can start a sound (no Note On with velocity > 0);
+  * `C13_state`       : the press changes nothing of the playing state: octave, semitone, channel, mapping, velocity,
+                        the note trackers and the counters are untouched (only the key / action trackers and the
+                        MIDI-input tracker, which is cleared);
+  * `C13_press_release_identity` : after press and release of the panic key the device equals the device before,
+                        with the MIDI-input tracker cleared;
+  * `C13_ext_irrelevant` : key handling never reads the MIDI-input tracker — outputs are identical and the states
+                        stay identical up to that tracker.  Together: every continuation behaves exactly as if the
+                        panic had not happened (`C13_as_if_not_happened`), in particular keys still held release
+                        with at most their own recorded Note Off (C02) and later presses are unaffected;
+  * `C13_monitor`     : the monitor evaluated on the implementation never fires on the model.
+-/
+import HidiProofs.KeyHistories
+namespace Hidi.Props.C13
+open Hidi Hidi.Spec Hidi.EngineSim Hidi.KeyHist
+
+theorem C13_monitor (cfg : Config) (evs : List Ev) (disc : Bool)
+    (hacc : Accepted cfg = true) (hk : evs.all keyOnly = true) :
+    failsOf "C13" (checkAll (modelTrace cfg evs disc)) = [] :=
+  no_fails_of "C13" (by decide) cfg evs disc hacc hk
+
+/-- the panic press when no up/down pair is completed by it (panic itself belongs to no pair) -/
+theorem C13_messages {cfg : Config} {d : Dev} (hd : DInv cfg d) (sub : Sub) (code : Code)
+    (ha : alookup code cfg.actions = some .panic) (hsw : (kt d code 1).exitComplete = false)
+    (hnp : (withAct (kt d code 1) .panic).checkDouble.2 = false) :
+    (d.handleKey sub code 1).2 = panicMsgs d.channel := by
+  rw [handleKey_eq hd, ha]
+  simp only [hsw, Bool.false_eq_true, and_false, if_false, if_true]
+  rw [actPress_eq, hnp]
+  simp only [Bool.false_eq_true, if_false]
+  rw [invokePress_outs]
+  simp only [if_true]
+  have h4 : (withAct (kt d code 1) Action.panic).channel = d.channel := (kt_frame d code 1).2.2.2.1
+  rw [h4]
+  exact panicOuts_eq hd.ch
+
+/-- nothing in the panic messages can start a sound, and a receiver that had anything sounding on that channel
+    hears nothing on it afterwards -/
+theorem C13_quiet (ch : Nat) : (panicMsgs ch).all quiet = true := panicMsgs_quiet ch
+
+theorem C13_messages_shape (ch : Nat) :
+    panicMsgs ch = .midi (0xB0 + ch) 123 0 :: (List.range 128).map (fun n => .midi (0x80 + ch) n 0) := rfl
+
+/-- the press leaves the playing state alone -/
+theorem C13_state {cfg : Config} {d : Dev} (hd : DInv cfg d) (sub : Sub) (code : Code)
+    (ha : alookup code cfg.actions = some .panic) (hsw : (kt d code 1).exitComplete = false) :
+    let d' := (d.handleKey sub code 1).1
+    stateKeyOf (StObs.ofDev d') = stateKeyOf (StObs.ofDev d) ∨ (withAct (kt d code 1) .panic).checkDouble.2 = true := by
+  intro d'
+  by_cases hnp : (withAct (kt d code 1) .panic).checkDouble.2 = true
+  · exact Or.inr hnp
+  · left
+    have hnp' : (withAct (kt d code 1) .panic).checkDouble.2 = false := Bool.eq_false_iff.mpr hnp
+    have : d' = ((withAct (kt d code 1) .panic).invokePress .panic).1 := by
+      show (d.handleKey sub code 1).1 = _
+      rw [handleKey_eq hd, ha]
+      simp only [hsw, Bool.false_eq_true, and_false, if_false, if_true]
+      rw [actPress_eq, hnp']
+      simp only [Bool.false_eq_true, if_false]
+    rw [this]
+    have hk := invokePress_key (withAct (kt d code 1) .panic) .panic
+    obtain ⟨h1, h2, h3, h4, h5, h6, -⟩ := kt_frame d code 1
+    have e1 : ((withAct (kt d code 1) .panic).invokePress .panic).1.octave = (kt d code 1).octave := congrArg (·.1) hk
+    have e2 : ((withAct (kt d code 1) .panic).invokePress .panic).1.semitone = (kt d code 1).semitone :=
+      congrArg (·.2.1) hk
+    have e3 : ((withAct (kt d code 1) .panic).invokePress .panic).1.channel = (kt d code 1).channel :=
+      congrArg (·.2.2.1) hk
+    have e4 : ((withAct (kt d code 1) .panic).invokePress .panic).1.mapping = (kt d code 1).mapping :=
+      congrArg (·.2.2.2) hk
+    simp only [stateKeyOf, StObs.ofDev, e1, e2, e3, e4, h2, h3, h4, h6]
+
+theorem C13_trackers {cfg : Config} {d : Dev} (hd : DInv cfg d) (sub : Sub) (code : Code)
+    (ha : alookup code cfg.actions = some .panic) (hsw : (kt d code 1).exitComplete = false) :
+    let d' := (d.handleKey sub code 1).1
+    d'.noteTr = d.noteTr ∧ d'.anaTr = d.anaTr ∧ d'.counter = d.counter ∧ d'.velocity = d.velocity ∧ d'.cfg = d.cfg := by
+  intro d'
+  have : d' = (actPress (kt d code 1) .panic).1 := by
+    show (d.handleKey sub code 1).1 = _
+    rw [handleKey_eq hd, ha]
+    simp only [hsw, Bool.false_eq_true, and_false, if_false, if_true]
+  rw [this]
+  have hf := (actPress_model (kt_dinv hd code 1) .panic).2.1
+  obtain ⟨h1, h2, h3, h4, h5, h6, h7, h8, h9, -⟩ := kt_frame d code 1
+  exact ⟨hf.noteTr.trans h7, hf.anaTr.trans h8, hf.counter.trans h9, hf.velocity.trans h5, hf.cfg.trans h1⟩
+
+/-! ### "as if panic had not happened" -/
+
+theorem serase_sinsert {α} [DecidableEq α] {a : α} {l : List α} (h : a ∉ l) : serase a (sinsert a l) = l := by
+  unfold serase sinsert
+  rw [if_neg h, List.filter_append]
+  simp
+  intro x hx hxa; exact h (hxa ▸ hx)
+
+/-- a device that differs only in the MIDI-input tracker -/
+def withExt (d : Dev) (x : List (Nat × Nat)) : Dev := { d with ext := x }
+
+/-- press and release of the panic key (fresh key, panic not already tracked, no pair completed): the device is
+    back where it was, with the MIDI-input tracker cleared -/
+theorem C13_press_release_identity {cfg : Config} {d : Dev} (hd : DInv cfg d) (sub : Sub) (code : Code)
+    (ha : alookup code cfg.actions = some .panic) (hsw : (kt d code 1).exitComplete = false)
+    (hnp : (withAct (kt d code 1) .panic).checkDouble.2 = false)
+    (hkey : code ∉ d.keyTr) (hact : Action.panic ∉ d.actTr) :
+    ((d.handleKey sub code 1).1.handleKey sub code 0).1 = withExt d [] ∧
+    ((d.handleKey sub code 1).1.handleKey sub code 0).2 = [] := by
+  have e1 : (d.handleKey sub code 1).1 = ((withAct (kt d code 1) .panic).invokePress .panic).1 := by
+    rw [handleKey_eq hd, ha]
+    simp only [hsw, Bool.false_eq_true, and_false, if_false, if_true]
+    rw [actPress_eq, hnp]
+    simp only [Bool.false_eq_true, if_false]
+  have hd1 : DInv cfg (d.handleKey sub code 1).1 := by
+    rw [e1]; exact invokePress_dinv (withAct_dinv (kt_dinv hd code 1) _) _
+  rw [handleKey_eq hd1, ha]
+  have h10 : ¬ ((0 : Int) = 1) := by omega
+  simp only [h10, false_and, if_false, if_true, and_true]
+  rw [e1]
+  simp only [Dev.invokePress, withAct, kt, actRelease, Dev.invokeRelease, if_true, if_false, h10, withExt]
+  have n1 : ¬ (Action.panic = Action.multinote) := by decide
+  simp only [n1, if_false, serase_sinsert hkey, serase_sinsert hact]
+
+theorem kt_ext (d : Dev) (x : List (Nat × Nat)) (code : Code) (val : Int) :
+    kt (withExt d x) code val = withExt (kt d code val) x := by
+  unfold kt withExt; split <;> rfl
+
+theorem noteOn_ext (d : Dev) (x : List (Nat × Nat)) (sub : Sub) (code : Code) :
+    (withExt d x).noteOn sub code = (withExt (d.noteOn sub code).1 x, (d.noteOn sub code).2) := by
+  unfold Dev.noteOn withExt Dev.curMap Dev.setCount Dev.count Dev.transposed
+  simp only []
+  repeat' split
+  all_goals rfl
+
+theorem noteOff_ext (d : Dev) (x : List (Nat × Nat)) (code : Code) :
+    (withExt d x).noteOff code = (withExt (d.noteOff code).1 x, (d.noteOff code).2) := by
+  unfold Dev.noteOff withExt Dev.setCount Dev.count
+  simp only []
+  repeat' split
+  all_goals rfl
+
+theorem checkDouble_ext (d : Dev) (x : List (Nat × Nat)) :
+    (withExt d x).checkDouble = (withExt d.checkDouble.1 x, d.checkDouble.2) := by
+  unfold Dev.checkDouble withExt
+  simp only []
+  repeat' split
+  all_goals rfl
+
+/-- `invokePress` either keeps the tracker (`x`) or clears it (panic) — in both cases independently of the rest -/
+theorem invokePress_ext (d : Dev) (x : List (Nat × Nat)) (a : Action) :
+    ((withExt d x).invokePress a).2 = (d.invokePress a).2 ∧
+    withExt ((withExt d x).invokePress a).1 [] = withExt (d.invokePress a).1 [] := by
+  unfold Dev.invokePress withExt
+  cases a <;> simp only <;> (try split) <;> first | exact ⟨rfl, rfl⟩ | simp
+
+theorem actRelease_ext (d : Dev) (x : List (Nat × Nat)) (a : Action) :
+    actRelease (withExt d x) a = withExt (actRelease d a) x := by
+  unfold actRelease withExt Dev.multinote Dev.invokeRelease
+  simp only []
+  repeat' split
+  all_goals rfl
+
+theorem dinv_ext {cfg : Config} {d : Dev} (hd : DInv cfg d) (x : List (Nat × Nat)) : DInv cfg (withExt d x) :=
+  ⟨hd.cfg_eq, hd.dead, hd.ana, hd.ch, hd.map, hd.vel, hd.oct, hd.semi, hd.wf⟩
+
+theorem withExt_withExt (d : Dev) (x y : List (Nat × Nat)) : withExt (withExt d x) y = withExt d y := rfl
+
+/-- **key handling never reads the MIDI-input tracker**: same outputs, same next state up to that tracker -/
+theorem C13_ext_irrelevant {cfg : Config} {d : Dev} (hd : DInv cfg d) (x : List (Nat × Nat))
+    (sub : Sub) (code : Code) (val : Int) :
+    ((withExt d x).handleKey sub code val).2 = (d.handleKey sub code val).2 ∧
+    withExt ((withExt d x).handleKey sub code val).1 [] = withExt (d.handleKey sub code val).1 [] := by
+  rw [handleKey_eq (dinv_ext hd x), handleKey_eq hd, kt_ext]
+  have hex : (withExt (kt d code val) x).exitComplete = (kt d code val).exitComplete := rfl
+  rw [hex]
+  split
+  · exact ⟨rfl, rfl⟩
+  · cases alookup code cfg.actions with
+    | some a =>
+      simp only
+      split
+      · rw [actPress_eq, actPress_eq]
+        have hw : withAct (withExt (kt d code val) x) a = withExt (withAct (kt d code val) a) x := rfl
+        rw [hw, checkDouble_ext]
+        simp only
+        split
+        · exact ⟨rfl, rfl⟩
+        · exact invokePress_ext _ x a
+      · split
+        · rw [actRelease_ext]; exact ⟨rfl, rfl⟩
+        · exact ⟨rfl, rfl⟩
+    | none =>
+      simp only
+      split
+      · rw [noteOn_ext]; exact ⟨rfl, rfl⟩
+      · split
+        · rw [noteOff_ext]; exact ⟨rfl, rfl⟩
+        · exact ⟨rfl, rfl⟩
+
+/-- key events only (value 2 repeats are dropped before the handler) -/
+def keyRun (d : Dev) : List (Sub × Code × Int) → Dev × List (List Out)
+  | [] => (d, [])
+  | (s, c, v) :: r => let p := d.handleKey s c v; let q := keyRun p.1 r; (q.1, p.2 :: q.2)
+
+/-- every state reached by key handling from a `DInv` state is a `DInv` state (accepted configuration) -/
+theorem handleKey_dinv {cfg : Config} (hacc : Accepted cfg = true) {d : Dev} (hd : DInv cfg d)
+    (sub : Sub) (code : Code) (val : Int) (hv : val ≠ 2) : DInv cfg (d.handleKey sub code val).1 := by
+  -- use the simulation step with a bookkeeping whose `ok` flag is off (no discipline needed for `DInv`)
+  let b : Book := ⟨StObs.ofDev d, d.keyTr, [], [], [], false, false⟩
+  have hinv : Inv cfg d b := ⟨hd, rfl, rfl, rfl, fun h => by simp [b] at h⟩
+  have := (sim_key hacc hinv 0 sub code val hv).1
+  exact this.dinv
+
+/-- **continuations are unaffected**: running any key history from `d` and from `d` with another MIDI-input tracker
+    (in particular the cleared one a panic leaves behind) produces the same outputs step by step -/
+theorem C13_as_if_not_happened {cfg : Config} (hacc : Accepted cfg = true) (evs : List (Sub × Code × Int))
+    (hv : ∀ e ∈ evs, e.2.2 ≠ 2) :
+    ∀ (d : Dev) (x : List (Nat × Nat)), DInv cfg d →
+      (keyRun (withExt d x) evs).2 = (keyRun d evs).2 := by
+  induction evs with
+  | nil => intro d x _; rfl
+  | cons e es ih =>
+    intro d x hd
+    obtain ⟨s, c, v⟩ := e
+    have hv' : v ≠ 2 := hv (s, c, v) List.mem_cons_self
+    obtain ⟨h1, h2⟩ := C13_ext_irrelevant hd x s c v
+    simp only [keyRun]
+    rw [h1]
+    congr 1
+    have hd1 := handleKey_dinv hacc hd s c v hv'
+    have hd2 := handleKey_dinv hacc (dinv_ext hd x) s c v hv'
+    have hes : ∀ e ∈ es, e.2.2 ≠ 2 := fun e he => hv e (List.mem_cons_of_mem _ he)
+    have a1 := ih hes ((withExt d x).handleKey s c v).1 [] hd2
+    have a2 := ih hes (d.handleKey s c v).1 [] hd1
+    rw [← a1, ← a2, h2]
+
+/-! ### non-vacuity: panic with a key held on another channel, then the key releases its own Note Off -/
+
+def exCfg : Config :=
+  { maps := [{ name := "Piano", midi := [(("", 30), ⟨60, 2⟩)], analog := [], dz := [], defDz := [] }],
+    actions := [(1, .panic)], exitSeq := [], mode := .noRepeat, defOct := 0, defSemi := 0, defCh := 3,
+    defMap := 0, vel := 64, axes := [] }
+
+example : ((Dev.init exCfg).run [.key "" 30 1, .key "" 1 1, .key "" 1 0, .key "" 30 0]).2 =
+    [[noteOnMsg 4 60 64], panicMsgs 2, [], [noteOffMsg 4 60]] := by decide
 
 end Hidi.Props.C13
